@@ -24,4 +24,8 @@ PROPS = {
         "trusted_base": TB_COMMON + ["messages are identified by small integers (injective map to the strings the harness prints); fmt.Sprintf and log.Print trusted; "
                                      "the captured line must equal the message byte for byte (observation code 2 otherwise)"],
     },
+    "PROCM": {
+        "harness": "PROCFAULT", "corr": "corr.ProcModelOnly", "n": {"quick": 300, "thorough": 3000},
+        "theorems": "props/C19.v", "rule": "dev only", "trusted_base": TB_COMMON, "shard": 25,
+    },
 }
